@@ -53,6 +53,8 @@ func kindOf(tx interfaces.Transaction) string {
 		return "rc"
 	case ctypes.TransferCrossChainAsset:
 		return "xc"
+	case ctypes.CRCAppropriation:
+		return "ca"
 	}
 	return "ot"
 }
@@ -78,6 +80,9 @@ func (n *Node) describeTx(tx interfaces.Transaction, height int64) string {
 			nonce = hex.EncodeToString(a.Data)
 			break
 		}
+	}
+	if tx.TxType() == ctypes.CRCAppropriation && tx.LockTime() != 0 {
+		nonce = fmt.Sprintf("%08x", tx.LockTime())
 	}
 	nin := len(tx.Inputs())
 	if tx.IsCoinBaseTx() {
